@@ -48,6 +48,18 @@ def check(ctx: Ctx) -> str:
         ctx.need(not unknown, f"unclassified public methods of {tn}: {sorted(unknown)} (update the checker's table)")
         ctx.ok(f"classified:{tn}", detail={"type": tn, "mutating": sorted(MUTATING[tn])})
 
+    ctx.rule("R8", "the immutability decision is a pure function of (object, attribute): modifies_known_mutable / is_safe_attribute keep no state - no mutable default argument, no item or attribute store, no global")
+    for spec in ("sandbox:modifies_known_mutable", "sandbox:ImmutableSandboxedEnvironment.is_safe_attribute", "sandbox:SandboxedEnvironment.is_safe_attribute", "sandbox:is_internal_attribute"):
+        fd = repo.func(spec)
+        a_ = fd.node.args
+        mut_def = [d_ for d_ in list(a_.defaults) + [k for k in a_.kw_defaults if k is not None] if isinstance(d_, (ast.Dict, ast.List, ast.Set, ast.Call, ast.DictComp, ast.ListComp, ast.SetComp))]
+        stores = [x for x in ast.walk(fd.node) if (isinstance(x, (ast.Subscript, ast.Attribute)) and isinstance(x.ctx, (ast.Store, ast.Del))) or isinstance(x, (ast.Global, ast.Nonlocal))]
+        stores += [c for c in astq.calls(fd.node) if isinstance(c.func, ast.Attribute) and c.func.attr in ("setdefault", "update", "add", "append") and not isinstance(c.func.value, ast.Call)]
+        bad_ = mut_def + stores
+        ctx.check(not bad_, f"stateless:{spec.split(':')[1]}", spec, f"keeps state: `{ast.unparse(bad_[0])[:60]}`" if bad_ else "stateless",
+                  f"{spec.split(':')[1]} remembers something between calls (`{ast.unparse(bad_[0])[:80] if bad_ else ''}`): the answer for one object then depends on which objects were asked about before - a cache keyed by type(obj) gives every *class* object the answer of the first class seen, after which `dict.update(d, ...)` is allowed in the immutable sandbox",
+                  fd.loc(bad_[0]) if bad_ else fd.loc())
+
     ctx.rule("R1", "modifies_known_mutable(obj, name) is True for every public mutating method of the exact types list, dict, set, deque (spec table simulated through the lookup loop)")
     m, node = repo.const_node("sandbox:_mutable_spec")
     ctx.need(isinstance(node, ast.Tuple), "_mutable_spec is no longer a tuple literal")
